@@ -234,6 +234,7 @@ class _OrbitCorrectionService(_DynamicsServiceBase):
         """
         self._correction_config = value
         self._corrector = None  # Invalidate cache to trigger recreation
+        self.reset()  # Results computed under the previous config are stale
 
 
 class _OrbitContinuationService(_DynamicsServiceBase):
@@ -366,6 +367,7 @@ class _OrbitContinuationService(_DynamicsServiceBase):
         """
         self._continuation_config = value
         self._generator = None  # Invalidate cache to trigger recreation
+        self.reset()  # Families generated under the previous config are stale
 
     @property
     def continuation_options(self) -> "OrbitContinuationOptions":
